@@ -63,7 +63,9 @@ class Check:
 
     def floor(self, rule, n):
         have = sum(1 for o in self.obl if o["rule"] == rule)
-        self.require(have >= n, "rule %s matched %d instances, floor is %d (anchors vanished or "
+        viol = sum(1 for o in self.obl if o["rule"] == rule and o["status"] == "violation")
+        # a reported violation may legitimately cut dependent obligations short; then the report stands
+        self.require(have >= n or viol > 0, "rule %s matched %d instances, floor is %d (anchors vanished or "
                      "extractor regression)" % (rule, have, n))
 
     # -- finishing -----------------------------------------------------------
